@@ -41,6 +41,18 @@ Definition verify_proof_top {B} (check : B -> res unit) (i : vp_input B) : res u
   | Some b => check b
   end.
 
+(* issuerData.credentialStatus is declared `interface{}`: when the proof is decoded, an
+   object {"id":..,"type":ty,"revocationNonce":n} with an integer literal n becomes a jsonObj
+   whose number is a float64; coerceCredentialStatus re-encodes it and decodes the result into
+   CredentialStatus.RevocationNonce (uint64).  `json_rt n` is that round trip of encoding/json
+   (float64 rounding, shortest decimal printing, uint64 parsing; None = error): an external
+   function, a recorded table in the per-run evaluation.  It is the identity below 2^53. *)
+Definition status_after_json (json_rt : Z -> option Z) (ty : string) (n : Z) : raw_status :=
+  match json_rt n with
+  | Some n' => RSObj (Some (mkcs ty n'))
+  | None => RSObj None
+  end.
+
 (* shapes of issuerData.credentialStatus that can come out of a JSON decoder *)
 Definition json_shaped (r : raw_status) : bool :=
   match r with RSObj _ | RSOther => true | _ => false end.
